@@ -34,6 +34,12 @@ def jobs_smr_hp(tier, seed):
     return (shards('smr_hp', 'dbg', 8, 5, 3600) + shards('smr_hp', 'rel', 8, 5, 3600) + shards('smr_hp', 'asan', 8, 5, 3600, scale=0.4))
 
 
+def jobs_smr_rcu(tier, seed):
+    if tier == 'quick':
+        return shards('smr_rcu', 'dbg', 6, 5, 900) + shards('smr_rcu', 'asan', 6, 5, 900, scale=0.5)
+    return (shards('smr_rcu', 'dbg', 11, 5, 3600) + shards('smr_rcu', 'rel', 11, 5, 3600) + shards('smr_rcu', 'asan', 11, 5, 3600, scale=0.4))
+
+
 HP_MECH = ['hp.inplace.scan_count', 'hp.classic.scan_count', 'hp.inplace.help_scan_count', 'hp.classic.help_scan_count']
 DHP_MECH = ['dhp.scan_count', 'dhp.help_scan_count', 'dhp.hp_extend_count', 'dhp.retired_block_count']
 
@@ -41,6 +47,8 @@ PROPS = {
     'C01': {'jobs': jobs_smr_hp, 'mechanisms_required': HP_MECH},
     'C02': {'jobs': jobs_smr_hp, 'mechanisms_required': DHP_MECH},
     'C03': {'jobs': jobs_smr_hp, 'mechanisms_required': HP_MECH + DHP_MECH},
+    'C04': {'jobs': jobs_smr_rcu},
+    'C05': {'jobs': jobs_smr_rcu},
     'C06': {
         'jobs': jobs_C06,
         'mechanisms_required': ['ms.onBadTail', 'ms.onEnqueueRace', 'ms.onDequeueRace', 'basket.onTryAddBasket', 'basket.onAddBasket',
